@@ -199,7 +199,18 @@ class C02(Prop):
             reused.append(d)
         return cases + reused
 
+    def _answer_run(self, case):
+        from pyplumio.frames import requests as RQ
+        from pyplumio.structures.network_info import NetworkInfo
+        cls = getattr(RQ, case["request"])
+        resp = cls(recipient=FI.addr(case["rcpt"]), sender=FI.addr(case["sender"])).response(data={"network": NetworkInfo()})
+        code = 0xC0 if case["request"] == "ProgramVersionRequest" else 0xB0
+        want = list(model.call("enc", [code, case["sender"], 0x56, 48, 5, list(resp.message)]))
+        return {"bytes": list(resp.bytes), "ok": list(resp.bytes) == want}
+
     def run_impl(self, case):
+        if case.get("kind") == "answer":
+            return self._answer_run(case)
         if case["kind"] == "concurrent-writers":
             return self._concurrent_run(case["cases"])
         try:
@@ -258,6 +269,8 @@ class C02(Prop):
             return {"error": type(e).__name__}
 
     def model_many(self, cases):
+        if cases and all(c["kind"] == "answer" for c in cases):
+            return [None] * len(cases)
         if cases and all(c["kind"] == "concurrent-writers" for c in cases):
             return [{"whole_frames": True} for _ in cases]
         env = [c for c in cases if "f" in c]
@@ -272,11 +285,15 @@ class C02(Prop):
         return out
 
     def obs(self, case, b):
+        if b is None or case["kind"] == "answer":
+            return None
         if case["kind"] == "concurrent-writers":
             return {"whole_frames": b.get("whole_frames")}
         return b if "bytes" in b else {"error": True}
 
     def spec_many(self, cases, behaviours):
+        if cases and all(c["kind"] == "answer" for c in cases):
+            return [bool(b.get("ok")) for b in behaviours]
         if cases and all(c["kind"] == "concurrent-writers" for c in cases):
             return [bool(b.get("whole_frames")) for b in behaviours]
         env = [(c, b) for c, b in zip(cases, behaviours) if "f" in c]
@@ -321,6 +338,26 @@ class C02(Prop):
         """Transmission: frames handed to one FrameWriter by several tasks while the transport exerts back-pressure (drain()
         suspends) must appear on the wire as whole frames, one after the other, in some order."""
         fails = []
+        # the answers the library builds itself (Request.response()) to the controller's program-version and check-device requests,
+        # whoever asked and whichever address (the library's or broadcast) was asked: addressed to the requester, sent as the library
+        from pyplumio.frames import requests as RQ
+        from pyplumio.structures.network_info import NetworkInfo
+        sw = [int(x) for x in str(G.tables().get("software_version") or "0.0.0").split(".")]
+        dv = model.call("encode_version", [[[0xFF, 0xFF], 5, [0x7A, 0x00], [0, 0, 0], sw[0], sw[1], sw[2]], 0x56])
+        for cls, code in ((RQ.ProgramVersionRequest, 0xC0), (RQ.CheckDeviceRequest, 0xB0)):
+            for rcpt in (0x56, 0x00):
+                for sender in (0x45, 0x51):
+                    case = {"kind": "answer", "request": cls.__name__, "rcpt": rcpt, "sender": sender}
+                    try:
+                        resp = cls(recipient=FI.addr(rcpt), sender=FI.addr(sender)).response(data={"network": NetworkInfo()})
+                        got = list(resp.bytes)
+                        want = list(model.call("enc", [code, sender, 0x56, 48, 5, list(resp.message)]))
+                        ok = got == want and (code != 0xC0 or (dv and list(resp.message) == list(dv[0])))
+                    except Exception as e:  # noqa: BLE001
+                        got, ok = [type(e).__name__], False
+                    if not ok:
+                        fails.append({"case": case, "impl": {"bytes": got}, "reason": "the library's answer to a controller request is not "
+                                      "addressed to the requester, sent from the library's address, with the payload of its kind"})
         self._concurrent = 0
         pool = [c for c in self.generate(rng, "quick") if (c["kind"].startswith("request:") or c["kind"] == "envelope") and "pre" not in c and not c.get("live")]
         long_ones = [c for c in pool if c["kind"] == "request:7" or (c["kind"] == "envelope" and len(c["f"][5]) > 40)]
